@@ -36,6 +36,7 @@ import (
 
 type Options struct {
 	NonTxn bool // non-transactional storage
+	NoCache bool // physical read cache switched off (disable_cache)
 	// AutoSeal: the barrier root key is kept in storage, wrapped by an external
 	// ("KMS"-style) wrapper with a fixed secret; unsealing needs no shares.
 	AutoSeal bool
@@ -158,6 +159,9 @@ func Build(t *testing.T, opt Options) *Sys {
 	phys := physx.New(newInner(opt))
 	c := vault.TestCoreWithSealAndUINoCleanup(t, coreConfig(phys, opt, rec))
 	keys, root := vault.TestCoreInit(t, c)
+	if opt.NoCache {
+		c.VerifDisablePhysicalCache()
+	}
 	if err := unsealAny(c, opt, keys); err != nil {
 		t.Fatalf("%v", err)
 	}
@@ -217,6 +221,9 @@ func BootData(t *testing.T, data map[string][]byte, img *Image) (*Sys, error) {
 	rec := img.Rec.Fork()
 	phys := physx.New(inner)
 	c := vault.TestCoreWithSealAndUINoCleanup(t, coreConfig(phys, img.Opt, rec))
+	if img.Opt.NoCache {
+		c.VerifDisablePhysicalCache()
+	}
 	if err := unsealAny(c, img.Opt, img.Keys); err != nil {
 		_ = c.Shutdown()
 		return nil, err
